@@ -8,6 +8,9 @@ import PyModeS.Tie.Bds44
 import PyModeS.Tie.Bds45
 import PyModeS.Tie.Bds50
 import PyModeS.Tie.Bds53
+
+-- symbolic execution of long generated `do` blocks: generous but finite budget (proof times are seconds)
+set_option maxHeartbeats 1000000
 namespace PyModeS.C12Gen
 open PyModeS PyModeS.Py PyModeS.CRC PyModeS.C12 PyModeS.Infer
 
